@@ -200,7 +200,13 @@ pub fn gen_scenario(seed: u64) -> Scenario {
             }
             10 | 11 => Req::Manifest { value: h, multiline: o.chance(1, 2) },
             12 => Req::ToThunk { value: h },
-            13 => Req::MakeArray { values: vec![o.below(16) as u32, o.below(16) as u32] },
+            13 => {
+                if o.chance(1, 2) {
+                    Req::MakeArray { values: vec![o.below(16) as u32, o.below(16) as u32] }
+                } else {
+                    Req::MakeObject { values: vec![o.below(16) as u32, o.below(16) as u32] }
+                }
+            }
             14 | 15 => Req::Gc,
             16 => Req::DropThunk(h),
             17 => Req::DropValue(h),
